@@ -300,6 +300,26 @@ func main() {
 func runE2E(o *obs, reals []any, ex export, realCond func(cond) bs.NumericCondition, rng *rand.Rand) {
 	cfg := bs.DefaultBloomSearchEngineConfig()
 	cfg.MinMaxIndexes = []string{"v"}
+	// other indexed fields around "v" in the configured list, carrying numbers, values that are not indexed (strings,
+	// bools, nulls) or nothing: what a row holds for another index must not change what is recorded for "v"
+	extras := rng.Intn(2) == 0
+	if extras {
+		cfg.MinMaxIndexes = [][]string{{"a", "v", "z"}, {"a", "z", "v"}, {"v", "a", "z"}}[rng.Intn(3)]
+	}
+	other := func() (any, bool) {
+		switch rng.Intn(6) {
+		case 0:
+			return nil, false
+		case 1:
+			return "n/a", true
+		case 2:
+			return nil, true
+		case 3:
+			return true, true
+		default:
+			return rng.Intn(100), true
+		}
+	}
 	cfg.MaxBufferedTime = time.Hour
 	cfg.RowDataCompression = bs.CompressionNone
 	meta, data := bs.NewMemoryMetaStore(), h.NewMemData()
@@ -318,7 +338,15 @@ func runE2E(o *obs, reals []any, ex export, realCond func(cond) bs.NumericCondit
 	}
 	for i, v := range reals {
 		done := make(chan error, 1)
-		h.Must(eng.IngestRows(context.Background(), []map[string]any{{"id": fmt.Sprintf("r%d", i+1), "v": v}}, done), "ingest")
+		row := map[string]any{"id": fmt.Sprintf("r%d", i+1), "v": v}
+		if extras {
+			for _, k := range []string{"a", "z"} {
+				if x, ok := other(); ok {
+					row[k] = x
+				}
+			}
+		}
+		h.Must(eng.IngestRows(context.Background(), []map[string]any{row}, done), "ingest")
 		switch {
 		case o.Layout == "oneblock":
 			o.Stored = append(o.Stored, true)
